@@ -11,10 +11,12 @@ Init == s = S0 /\ last = <<"none", "none">> /\ h = <<>>
 Step(c) == s' = Do(s, c) /\ last' = c /\ h' = IF D = 0 THEN h ELSE Append(h, <<c[1], c[2], Obs(Do(s, c))>>)
 Next == \E c \in Calls : Step(c)
 Spec == Init /\ [][Next]_vars
-View == <<s.tbl, s.flag, s.ret, last>>
+Keys(tb) == {EKey(tb[i]) : i \in DOMAIN tb}
+View == <<[t \in Tables |-> IF t \in Evicting THEN <<s.tbl[t]>> ELSE <<Keys(s.tbl[t])>>], s.flag>>
 Depth == D = 0 \/ Len(h) <= D
 (* C10 on the mechanism: whatever the tables hold, a call is answered with the method's own answer for its arguments *)
-AnswerIsOwn == last[1] # "none" => s.ret = Own(last)
+AnswerIsOwn == /\ (last[1] # "none" => s.ret = Own(last))
+               /\ \A c \in Calls : Do(s, c).ret = Own(c)
 Bounded == \A t \in Tables : Len(s.tbl[t]) <= Cap(t)
 KeysDistinct == \A t \in Tables : \A i, j \in DOMAIN s.tbl[t] : i # j => EKey(s.tbl[t][i]) # EKey(s.tbl[t][j])
 (* cache_info() bookkeeping: currsize never exceeds misses; the flag is set exactly when chunk codons were listed *)
